@@ -322,7 +322,10 @@ def _cli_args(root, st, aux):
             a += ["-i", i]
         return "diff", a
     if op == "flatten":
-        return "flatten", [r, os.path.basename(st["dest_path"]) if st.get("rel_dest") else st["dest_path"]]
+        a = [r, os.path.basename(st["dest_path"]) if st.get("rel_dest") else st["dest_path"]]
+        for k, v in (st.get("creator") or {}).items():
+            a += [f"--{k}", v]
+        return "flatten", a
     if op == "info":
         return "info", [r]
     if op == "hash":
